@@ -254,6 +254,12 @@ fn check_contexts(model: &mut Model, rep: &mut Report, prefix: &str, def: &str, 
         if c.contains(" where ") {
             continue;
         }
+        // a call from inside a function or callback runs one or more call levels deeper: next to the
+        // depth limit (property C18) the outcome may legitimately be the depth error at one site only
+        if got.contains("(err depth)") || reference.contains("(err depth)") {
+            rep.count("depth-limit-band");
+            continue;
+        }
         if got != reference {
             rep.finding("oracle", "call-site-dependent", &format!("{}\n{}\n-- context --\n{}", prefix, def, c),
                 &format!("at definition: {} in context: {}", short(reference), short(got)), "c04.call-site");
